@@ -795,7 +795,9 @@ func (r *reader) read(src []byte) {
 			}
 		}
 		if r.one && 0 < len(r.code) {
-			if b == ')' {
+			// The position is just past the object when the byte that
+			// completed it is part of it.
+			if b == ')' || b == '"' || b == '|' {
 				r.pos++
 			}
 			return
